@@ -213,7 +213,7 @@ func refHashOK(fn *ssa.Function, h ssa.Value, at ssa.Instruction, depth int) (bo
 func checkActionsAtomic(c *Ctx, eff *effSummaries) {
 	w := c.W
 	c.Doc("R6.4", "every GraphQL mutation resolver moves entity refs at most once on any path (one user-level action = one commit = one ref update): no ref-moving call site is reachable from another one, so a crash cannot leave half of an action published")
-	c.Doc("R6.5", "every Pull function (cache, entity/dag, entities/bug, entities/identity) reaches MergeAll on every path from a successful fetch to a success return: repeating an interrupted pull completes it even when there is nothing left to download")
+	c.Doc("R6.5", "every function that fetches and merges (the Pull functions of cache, entity/dag, entities/identity, and the pull command) reaches MergeAll on every path from a successful fetch to a success return: repeating an interrupted pull completes it even when there is nothing left to download")
 	n := 0
 	for _, rm := range w.resolverMethods() {
 		if rm.Iface != "MutationResolver" || rm.Fn == nil {
@@ -259,15 +259,9 @@ func checkActionsAtomic(c *Ctx, eff *effSummaries) {
 	// R6.5
 	nPull := 0
 	for _, fn := range w.ModFns {
-		if isInstance(fn) || fn.Name() != "Pull" || len(fn.Blocks) == 0 || w.isTestHelper(fn) || fn.Parent() != nil {
+		if isInstance(fn) || len(fn.Blocks) == 0 || w.isTestHelper(fn) || fn.Parent() != nil || fnPkgPath(fn) == modPath+"/repository" {
 			continue
 		}
-		pk := fnPkgPath(fn)
-		if !(strings.HasSuffix(pk, "/cache") || strings.HasSuffix(pk, "/entity/dag") || strings.HasSuffix(pk, "/entities/bug") || strings.HasSuffix(pk, "/entities/identity")) {
-			continue
-		}
-		// wrappers that delegate to another Pull are covered by their callee
-		delegates := false
 		isMerge := func(i ssa.Instruction) bool {
 			ci, ok := i.(ssa.CallInstruction)
 			if !ok {
@@ -276,19 +270,42 @@ func checkActionsAtomic(c *Ctx, eff *effSummaries) {
 			nn, _ := callName(ci.Common())
 			return strings.HasSuffix(nn, ".MergeAll") || strings.HasSuffix(nn, "MergeAll")
 		}
+		// a pull: a function that fetches and merges
+		var fetch *Call
+		merges, delegates := false, false
 		for _, cl := range Calls(fn) {
-			if strings.HasSuffix(cl.Name, ".Pull") || cl.Name == "entity/dag.Pull" {
+			switch {
+			case strings.HasSuffix(cl.Name, ".Fetch") || strings.HasSuffix(cl.Name, ".FetchRefs") || cl.Name == "entity/dag.Fetch" || cl.Name == "entities/identity.Fetch" || cl.Name == "entities/bug.Fetch":
+				fetch = cl
+			case isMerge(cl.Instr):
+				merges = true
+			case strings.HasSuffix(cl.Name, ".Pull") || cl.Name == "entity/dag.Pull":
 				delegates = true
 			}
 		}
-		if delegates {
+		if fn.Name() == "Pull" && fetch == nil && !delegates {
+			// a Pull that neither fetches itself nor delegates: still must merge
+			merges = true
+		}
+		if delegates || fetch == nil || !(merges || fn.Name() == "Pull") {
 			continue
 		}
 		nPull++
 		c.Sites++
 		c.seeFn(funcName(fn))
-		bad, p, _ := pathAvoiding(fn, nil, isSuccessReturn, isMerge)
-		c.Check(!bad, "R6.5", funcName(fn)+":always-merges", w.FnPos(fn), "every success return passes MergeAll", "a success return is reachable without merging what was fetched ("+blocksString(w, p)+"): a pull interrupted after its fetch is not completed by pulling again")
+		// from the success of the fetch, no success return without merging
+		bad := false
+		var p []*ssa.BasicBlock
+		if fetch.Value() != nil && len(errValues(fetch.Value())) > 0 {
+			for _, sb := range successBlocks(fetch.Value()) {
+				if found, pp, _ := pathSearch(fn, nil, sb, isSuccessReturn, isMerge, false); found {
+					bad, p = true, pp
+				}
+			}
+		} else {
+			bad, p, _ = pathAvoiding(fn, fetch.Instr, isSuccessReturn, isMerge)
+		}
+		c.Check(!bad, "R6.5", funcName(fn)+":always-merges", w.FnPos(fn), "every success return after the fetch passes MergeAll", "a success return is reachable after the fetch without merging what was fetched ("+blocksString(w, p)+"): a pull interrupted (or refused) after its fetch is not completed by pulling again — the command reports success while the fetched entities stay unmerged")
 	}
 	if nPull < 2 {
 		c.Violate("R6.5", "expected:pull-functions", "module", fmt.Sprintf("%d Pull functions found (reference 3)", nPull))
